@@ -334,18 +334,24 @@ PLANS = {
                      "algorithm -> transform (lengths from the RFC tables) -> wire -> algorithm; transform identifiers (quick: 0..40 and boundary / "
                      "one-bit-away values; thorough: all 65536) x attribute classes (absent, key length in a boundary set, foreign attribute types "
                      "incl. 14+128k, TLV-encoded) x 7 decode functions, directly and after a wire round trip; all 54 IKE and 72 Child single-choice "
-                     "proposals through NewIKESAKey / NewChildSAKeyByProposal and back through ToProposal, with unsupported / missing elements"),
+                     "proposals through NewIKESAKey / NewChildSAKeyByProposal and back through ToProposal, with unsupported / missing elements; received "
+                     "transforms with two or three attributes and several transforms / proposals in one SA payload (allowed: unsupported, or a size one of "
+                     "the transform's OWN Key Length attributes names)"),
     "C10": dict(level="model_checking", run=run_c10, assumptions=ASSUME_SK,
                 rule="CipherObj.tla model-checked (FreshIV, SizeLaw, KeySizeExact, NoResultOnFailure; knob-off sanity run); 3 key sizes x plaintext lengths "
                      "0..64 and {255,256,257,4095,4096} under deterministic and system sources (inverse, length law as a set of legal lengths, IV made of "
                      "delivered octets, no IV repeat); Decrypt EXHAUSTIVELY over total lengths 0..96 x all 256 recovered pad-length octets (spec-built "
                      "ciphertexts as AES-CBC terms) in three capacity layouts; keys of every size 0..64 for each type; call histories on two objects with "
-                     "failing reads; every recorded Encrypt is judged by TLC with a textbook-CBC echo oracle (Trace_Cipher)"),
+                     "failing reads; every recorded Encrypt is judged by TLC with a textbook-CBC echo oracle (Trace_Cipher); plaintext lengths at every power of two "
+                     "to 4096 with neighbours (thorough: EVERY length 0..4096); every octet value as the only octet the random source delivers; PadLaw.tla "
+                     "(Apalache, all lengths and pad octets, three knob-off runs) as an extra"),
     "C08": dict(level="model_checking", run=run_c08, assumptions=ASSUME_SK,
                 rule="ChildIsFunction model-checked in SALife.tla and AsFresh (with the PRF object's hidden state) in SKChannel.tla, sanity run with "
                      "Reset-per-block removed; TLC prints, for each PRF, derivation sequences on ONE long-lived IKE SA object cycling through all 12 "
                      "(encryption size x {none, MD5, SHA1, SHA2-256}) combinations and nonce lengths {0,1,32,40,64,300}; the k-th result (k up to 48 / "
-                     "120) must equal the RFC 7296 2.17 terms ei, ai, er, ar of prf+(SK_d, Ni|Nr); also derivations inside two-party and history vectors"),
+                     "120) must equal the RFC 7296 2.17 terms ei, ai, er, ar of prf+(SK_d, Ni|Nr); also derivations inside two-party and history vectors; "
+                     "MultiSA.tla: Child SA objects from ESP proposals of different sizes created and keyed in every interleaving (sanity run); "
+                     "PrfPlusLaw.tla (Apalache) as an extra"),
     "C09": dict(level="fault_enumeration", run=run_c09, assumptions=ASSUME_SK + ["the primes of the specification are derived from the RFC formula by bin/gen_dhgroups.py",
                 "crypto/rand.Reader is interposed (Go toolchain of this image honours the replaceable global)"],
                 rule="13 exponent classes (0, 1, 2, p-1, p, p+1, 2^128, 2^2048-1, n (exposes every digit of the prime), random, short, two exponents "
@@ -358,7 +364,9 @@ PLANS = {
                      "groups x nonce lengths {1,4,16,32,64,512} x secret lengths {1,128,256,512} x SPI pools x algorithm infos by name / through "
                      "the SA's own proposal, and prints the seven keys as RFC 7296 2.13-2.14 terms (prf+ blocks as named HMAC terms) plus probe terms "
                      "for all seven ready-to-use objects; two-party behaviours (GetPublicValue, NewIKESAKey with a wire-decoded proposal, GetSharedKey, "
-                     "GenerateKeyForIKESA) end in protected traffic both ways across the two objects and Child SA derivations on both ends"),
+                     "GenerateKeyForIKESA) end in protected traffic both ways across the two objects and Child SA derivations on both ends; MultiSA.tla "
+                     "(several IKE SA objects of different suites alive at once, probed in every order; sanity run); re-derivations that differ in one input only; "
+                     "PrfPlusLaw.tla (Apalache) as an extra"),
     "C17": dict(level="model_checking", run=run_c17, assumptions=ASSUME_SK,
                 rule="SKChannel.tla makes the hidden state of the MAC / PRF objects explicit (what was written since the last Reset); AsFresh is "
                      "model-checked over all operation sequences and fails when Reset-before-MAC or Reset-per-prf-block is removed (sanity runs); "
@@ -389,7 +397,8 @@ PLANS = {
                 rule="TLC explores the builder state machine (Builders.tla): every builder with pooled arguments (boundary sizes incl. the 16-bit payload "
                      "limit and oversize NAS PDUs / QFI lists, all flag combinations), sub-builders (proposal/transform/selector/attribute), every "
                      "first call followed by one representative of every builder; after each call the container projection equals the spec state, "
-                     "the encoding equals the reference encoder or is an error where an argument exceeds a wire limit; NewMessage header/flags/accessors"),
+                     "the encoding equals the reference encoder or is an error where an argument exceeds a wire limit; NewMessage header/flags/accessors; every "
+                     "8-bit scalar argument over 0..255 one at a time, edge contents, address classes, many transforms of one type in every order of the calls"),
     "C05": dict(level="model_checking", run=run_c05, assumptions=ASSUME_CODEC,
                 rule="direction 1: library octets for every pool message compared with the TLA+ encoder and parsed by the strict TLA+ parser (zero reserved "
                      "bits, exact lengths, chain ends in 0, fields recovered); direction 2: TLC prints datagrams of the reference encoder with sender "
@@ -402,7 +411,8 @@ PLANS = {
     "C13": dict(level="model_checking", run=run_c13, assumptions=ASSUME_CODEC, exhaustive=True,
                 rule="exhaustive single insertions: all 239 unsupported type codes x every position of 6 base messages x both critical-flag values; body "
                      "lengths from a pool (thorough: every length 0..1024 for three type codes); sampled double insertions; through message and chain "
-                     "decoders; expectation = the message without the inserted payload, or an error when critical"),
+                     "decoders; two unsupported payloads next to each other with every type code in either place; a used object receiving such a datagram; "
+                     "expectation = the message without the inserted payload, or an error when critical"),
     "C04": dict(level="fault_enumeration", run=run_c04, assumptions=ASSUME_CODEC + ["termination is observed through a 20 s watchdog per call, not proved"],
                 rule="TLC enumerates templates x every size/length/count site x field values (all 256 values of 8-bit fields, boundary sets of 16-bit "
                      "fields) x remaining-length windows; each mutant is fed to every decoding entry point in three capacity layouts under recover "
